@@ -51,6 +51,12 @@ def reply_mix(ctx, cfg, rounds=1, on_reply=None, tcp=True, own_src=0.03):
                 emit("encap", f)
             for f in rng.sample(gen.icmp_noise(rng, cfg), 4):
                 emit("icmpnoise", f[1])
+            # a datagram / segment of a transport that merely shares the header layout (UDP-Lite, DCCP, SCTP ...): unsupported
+            # protocol - and never to be answered as if it had been UDP / TCP
+            sreq = stun.msg(1, stun.gen_tid(rng, True))
+            for p in rng.sample([136, 33, 132, 17 ^ 0x80, 6 ^ 0x40], 2):
+                l4 = pkt.udp(e.cip, e.sip, gen.rnd_port(rng), gen.rnd_port(rng), sreq) if p != (6 ^ 0x40) else pkt.tcp(e.cip, e.sip, gen.rnd_port(rng), gen.rnd_port(rng), 1, 0, SYN)
+                emit("altproto", e.l3(p, l4))
             for fl in (SYN, SYN | ECE, SYN | CWR, SYN | PSH, SYN | URG, SYN | PSH | URG | ECE):
                 emit("syn", e.tcp(gen.rnd_port(rng), gen.rnd_port(rng), rng.choice([0, 1, 0xFFFFFFFF, rng.getrandbits(32)]), rng.getrandbits(32), fl))
             emit("finack", e.tcp(gen.rnd_port(rng), gen.rnd_port(rng), rng.choice([0xFFFFFFFF, rng.getrandbits(32)]), rng.getrandbits(32), FIN | ACK))
